@@ -193,7 +193,7 @@ CFG_DEFAULT = {
     'feature="_test_utils"': False, 'feature="_externalize_tests"': False, 'feature="dnssec"': False,
     'c_bindings': False, 'ldk_test_vectors': False, 'taproot': False, 'async_signing': False, 'splicing': True,
     'simple_close': False, 'ldk_bench': False, 'require_route_graph_test': False, 'kani': False, 'ldk_verif': False,
-    'target_pointer_width="64"': True, 'target_pointer_width="32"': False,
+    'target_pointer_width="64"': True, 'target_pointer_width="32"': False, 'secp256k1_fuzz': False, 'hashes_fuzz': False,
 }
 
 
